@@ -17,7 +17,7 @@ import (
 
 func init() {
 	Registry["C20"] = Set{
-		Explanation: "Decides structural clauses of the cron scheduler: K1 field plumbing — crontab field i (minute, hour, day, month, weekday) is parsed with the descriptor of unit i and stored in the list IsRunAt consults for that unit (minute/hour/month: the AND list; day and weekday: their own OR lists), each descriptor carries the mask type and the value range of its unit, each mask type is tested against the matching time.Time accessor, and every settable bit index is below the type nibble (bit 60); the day/weekday combination rule is AND with each wildcard and OR when both are restricted; K2 AddJob returns the parser's error before the job is inserted and refuses a taken name; K3 the action is dominated by the 'disabled' test of the very job popped, and RemoveJob/DisableJob set that flag; K4 every path through the minute callback that is not the node-down exit re-arms the timer and reschedules (the recognised clock-skew early return is listed, not armed: it cannot be exhibited without controlling the clock); K5 a job enters the spool for a minute at most once: the push is behind a per-job compare-and-swap that the callback clears when it takes the job out. Added while probing: K1 the day/weekday combination is verified as a truth table by exhaustive abstract execution of cronSpecMask.IsRunAt over {list empty, list matches}; an empty list matches; K3 EnableJob clears the disabled flag; K6 the mask evaluation uses calendar operations only (no Time.Add/Sub/Truncate).",
+		Explanation: "Decides structural clauses of the cron scheduler: K1 field plumbing — crontab field i (minute, hour, day, month, weekday) is parsed with the descriptor of unit i and stored in the list IsRunAt consults for that unit (minute/hour/month: the AND list; day and weekday: their own OR lists), each descriptor carries the mask type and the value range of its unit, each mask type is tested against the matching time.Time accessor, and every settable bit index is below the type nibble (bit 60); the day/weekday combination rule is AND with each wildcard and OR when both are restricted; K2 AddJob returns the parser's error before the job is inserted and refuses a taken name; K3 the action is dominated by the 'disabled' test of the very job popped, and RemoveJob/DisableJob set that flag; K4 every path through the minute callback that is not the node-down exit re-arms the timer and reschedules (the recognised clock-skew early return is listed, not armed: it cannot be exhibited without controlling the clock); K5 a job enters the spool for a minute at most once: the push is behind a per-job compare-and-swap that the callback clears when it takes the job out. Added while probing: K1 the day/weekday combination is verified as a truth table by exhaustive abstract execution of cronSpecMask.IsRunAt over {list empty, list matches}; an empty list matches; K3 EnableJob clears the disabled flag; K6 the mask evaluation uses calendar operations only (no Time.Add/Sub/Truncate). K7 the constructor initialises the 'next minute' field with the minute the timer is armed for.",
 		NotDecided: []string{
 			"that the compiled masks denote exactly the crontab semantics for every spec and minute (lists, ranges, steps, L, xL, x#n)",
 			"time zones and daylight-saving transitions",
@@ -358,6 +358,56 @@ func runC20(p *load.Program, r *core.Report) {
 			r.Unk(rule6, key, "", "", inst, "no calendar operation found in the mask evaluation: the rule no longer sees the code")
 		default:
 			r.OK(rule6, key, "node.cronMask.IsRunAt", "", inst, fmt.Sprintf("%d AddDate call(s), no duration arithmetic", cal))
+		}
+	}
+
+	// ---- K7 the minute jobs are matched against is initialised by the constructor
+	{
+		rule7 := "C20.K7 next-minute-initialised"
+		r.Floor(rule7, 1)
+		key := "C20.K7|createCron"
+		inst := "the 'next minute' every job is matched against is set when the cron is created, to the minute the timer is armed for (a job added before the first tick is matched against that minute, not against the zero time)"
+		create := p.Func("node", "", "createCron")
+		if create == nil {
+			r.Unk(rule7, key, "", "", inst, "createCron not found")
+		} else {
+			// the duration given to AfterFunc is X.Sub(now); the field must be stored with that X
+			var armed ssa.Value
+			eachInstr(create, func(in ssa.Instruction) {
+				cc := callCommon(in)
+				if cc != nil && isPkgFunc(cc, "time", "AfterFunc") {
+					if sub, ok := cc.Args[0].(*ssa.Call); ok && callsNamed(sub, "Sub") {
+						armed = sub.Common().Args[0]
+					}
+				}
+			})
+			stored := false
+			var other string
+			eachInstr(create, func(in ssa.Instruction) {
+				st, ok := in.(*ssa.Store)
+				if !ok {
+					return
+				}
+				own, fl := fieldOwner(st.Addr)
+				if own == nil || own.Obj().Name() != "cron" || fl != "next" {
+					return
+				}
+				if armed != nil && (st.Val == armed || resolveLocalCopy(st.Val) == armed || canon(st.Val) == canon(armed)) {
+					stored = true
+				} else {
+					other = p.Pos(st.Pos())
+				}
+			})
+			switch {
+			case armed == nil:
+				r.Unk(rule7, key, fname(create), p.Pos(create.Pos()), inst, "the timer's first duration is not of the form next.Sub(now)")
+			case stored:
+				r.OK(rule7, key, fname(create), p.Pos(create.Pos()), inst, "c.next = the minute the timer is armed for")
+			case other != "":
+				r.Bad(rule7, key, fname(create), other, inst, "the field is initialised with something else than the minute the timer is armed for")
+			default:
+				r.Bad(rule7, key, fname(create), p.Pos(create.Pos()), inst, "the field stays the zero time until the first tick: a job added before it is matched against 0001-01-01 00:00 — \"0 0 1 1 *\" fires right after every node start, a job due in the coming minute is skipped")
+			}
 		}
 	}
 
